@@ -67,6 +67,8 @@ def quantize_via(entry, x, qtype, axis, gs):
         m = QLinear.from_module(nn.Linear(feats, 2, bias=False).to(x.dtype), weights=O.QTALL["qint8"], activations=qtype)
         with torch.no_grad(), Calibration(streamline=False):
             m(batch)
+            if x.numel() % 2:
+                m(batch)  # a second batch: the moving average of equal values (dtype and value must survive the update)
         s = m.input_scale.detach().clone().reshape(())
         return s, None, SymmetricQuantizer.apply(x, qtype, None, s)
     raise ValueError(entry)
